@@ -21,6 +21,7 @@ ERRNO = {
 }
 
 CWD = "/sim"
+DEV_NULL = "/dev/null"
 # real top-level directories that must stay reachable (the interpreter, the repository, /dev/null ...)
 REAL_TOP_LEVEL = {"/" + d for d in ("bin", "boot", "dev", "etc", "home", "lib", "lib32", "lib64", "libx32", "media", "mnt", "opt",
                                     "proc", "repo", "root", "run", "sbin", "srv", "sys", "usr", "var", "venv", "verif", "w")}
@@ -116,6 +117,8 @@ class SimRaw(io.RawIOBase):
         return n
 
     def write(self, b):
+        if getattr(self, "_redirect", None) is not None:
+            return self._redirect.write(b)   # os.dup2(other, this descriptor) was called
         b = bytes(b)
         n_req = len(b)
         f = self.fs.fault("write", self.role, self.path, n_req)
@@ -130,6 +133,9 @@ class SimRaw(io.RawIOBase):
             elif n_req > 1:
                 b = b[:max(1, min(n_req - 1, f.get("n", 1)))]
                 self.fs.note_fired(f)
+        if self.path == DEV_NULL:
+            self.fs.record("write", self.role, self.path, n_req, len(b))
+            return len(b)
         data = self._data()
         if self._append:
             self.pos = len(data)
@@ -237,6 +243,10 @@ class SimFS:
         self.ro = {self.norm(p) for p in ro} | {"/"}
         self.unreadable = {self.norm(p) for p in unreadable}
         self.roles = {self.norm(p): r for p, r in (roles or {}).items()}
+        # the null device is part of the simulated tree (the documented BrokenPipeError idiom opens it
+        # for writing and dup2()s it over stdout): reads give EOF, writes are discarded, nothing is logged
+        self.files[DEV_NULL] = bytearray()
+        self.dirs.add("/dev")
         self.plan = {int(f["at"]): f for f in (plan or [])}
         self.persistent: list = []
         self.knobs = knobs or {}
@@ -318,6 +328,8 @@ class SimFS:
             return True
         try:
             n = self.norm(path)
+            if n == DEV_NULL:
+                return True
             # the root directory and names directly under it belong to the simulated tree too (a
             # read-only root): the parent of the working directory must never be the real "/"
             if n == "/" or (posixpath.dirname(n) == "/" and n not in REAL_TOP_LEVEL):
@@ -358,6 +370,8 @@ class SimFS:
         self.history.append([self.seq, op, role, a, res])
 
     def mutation(self, what, role, path):
+        if path == DEV_NULL:
+            return
         self.mutations.append([self.seq, what, role, path])
         self.touch(path)
 
@@ -680,6 +694,14 @@ class SimFS:
         self.fds[nfd] = raw
         return nfd
 
+    def os_dup2(self, fd, fd2, *a, **kw):
+        raw = self.fds[fd]
+        old = self.fds.get(fd2)
+        if old is not None and old is not raw:
+            old._redirect = raw   # file objects that wrap the old descriptor now reach the new file
+        self.fds[fd2] = raw
+        return fd2
+
     def os_scandir(self, path="."):
         fs = self
         p = self.phys(path)
@@ -882,12 +904,14 @@ class SimFS:
 
         files = {}
         for p in sorted(self.files):
+            if p == DEV_NULL:
+                continue
             data = bytes(self.files[p])
             if len(data) > 16384 and p not in keep:
                 files[p] = "#sha256:%s:%d" % (hashlib.sha256(data).hexdigest(), len(data))
             else:
                 files[p] = data.hex()
-        return {"files": files, "dirs": sorted(self.dirs), "links": {p: self.links[p] for p in sorted(self.links)}}
+        return {"files": files, "dirs": sorted(d for d in self.dirs if d != "/dev"), "links": {p: self.links[p] for p in sorted(self.links)}}
 
 
 class Patches:
@@ -987,6 +1011,7 @@ class Patches:
         self._set(_os, "rmdir", wrap1(_os.rmdir, fs.os_rmdir))
         self._set(_os, "truncate", wrap1(_os.truncate, fs.os_truncate))
         self._set(_os, "dup", wrapfd_early(_os.dup, fs.os_dup))
+        self._set(_os, "dup2", wrapfd_early(_os.dup2, fs.os_dup2))
         self._set(_os, "scandir", lambda path=".": fs.os_scandir(path) if (not isinstance(path, int) and fs.is_sim(path)) else _real_scandir(path))
         _real_scandir = self.saved[-1][2]
         for xname in ("listxattr", "getxattr", "setxattr", "removexattr"):
